@@ -167,17 +167,18 @@ var vScripts = map[string][]string{
 }
 
 var vScriptCfg = map[string]vcfg{
-	"sizes":      {Buckets: 2, FileSize: 300, Threshold: 32},
-	"overwrite":  {Buckets: 1, FileSize: 300, Threshold: 32},
-	"tie":        {Buckets: 1, FileSize: 300, Threshold: 32},
-	"txn":        {Buckets: 3, FileSize: 300, Threshold: 32},
-	"race_set":   {Buckets: 1, FileSize: 300, Threshold: 32},
-	"race_del":   {Buckets: 1, FileSize: 300, Threshold: 32},
-	"race_txn":   {Buckets: 1, FileSize: 300, Threshold: 32},
-	"expired":    {Buckets: 1, FileSize: 300, Threshold: 32},
-	"txn_empty":  {Buckets: 1, FileSize: 300, Threshold: 32},
-	"hot_cross":  {Buckets: 2, FileSize: 300, Threshold: 32, Hot: 1, HotThr: 2},
-	"hot_cross3": {Buckets: 3, FileSize: 300, Threshold: 32, Hot: 1, HotThr: 2},
+	"sizes":         {Buckets: 2, FileSize: 300, Threshold: 32},
+	"overwrite":     {Buckets: 1, FileSize: 300, Threshold: 32},
+	"tie":           {Buckets: 1, FileSize: 300, Threshold: 32},
+	"txn":           {Buckets: 3, FileSize: 300, Threshold: 32},
+	"race_set":      {Buckets: 1, FileSize: 300, Threshold: 32},
+	"race_del":      {Buckets: 1, FileSize: 300, Threshold: 32},
+	"race_txn":      {Buckets: 1, FileSize: 300, Threshold: 32},
+	"expired":       {Buckets: 1, FileSize: 300, Threshold: 32},
+	"txn_empty":     {Buckets: 1, FileSize: 300, Threshold: 32},
+	"gc_ingest_tie": {Buckets: 1, FileSize: 160, Threshold: 32},
+	"hot_cross":     {Buckets: 2, FileSize: 300, Threshold: 32, Hot: 1, HotThr: 2},
+	"hot_cross3":    {Buckets: 3, FileSize: 300, Threshold: 32, Hot: 1, HotThr: 2},
 }
 
 func runProg(c *corr.Ctx, cfg vcfg, prog []string, tag string) {
@@ -225,6 +226,9 @@ func runVlog(c *corr.Ctx) error {
 	}
 	for _, name := range corr.SortedKeys(vScripts) {
 		c.Count("script_" + name)
+		if vScriptCfg[name].Buckets == 0 {
+			return fmt.Errorf("script %s has no configuration", name)
+		}
 		runProg(c, vScriptCfg[name], vScripts[name], "script:"+name)
 	}
 	n := c.Scale(16, 300)
